@@ -18,16 +18,18 @@ static ev_src_t *g_src; static evt_priv_t *g_evt;
 #include "abs.contracts.h"
 #ifdef V_RECV_UNIT
 #include "recv.contracts.h"
+#elif defined(V_CTXAPI_UNIT)
+#include "ctxapi.contracts.h"
 #else
 #include "ctx.contracts.h"
 #endif
 
-#define H_INPUTS(X) V_MOD_INPUTS(X) X(uint8_t, has_src) X(uint32_t, sflags) X(uint8_t, up_kind) X(uint64_t, up_other) X(int32_t, nfds) X(int32_t, pw_errno)
+#define H_INPUTS(X) V_MOD_INPUTS(X) X(uint8_t, has_src) X(uint32_t, sflags) X(uint8_t, up_kind) X(uint64_t, up_other) X(int32_t, nfds) X(int32_t, pw_errno) X(uint8_t, tls_kind) X(int32_t, tls_set_ret) X(int32_t, ctxnew_ret) X(uint8_t, name_kind)
 V_DEFINE_INPUTS(H_INPUTS)
 
 #include "vbuild.h"
 
-#ifndef V_RECV_UNIT
+#if !defined(V_RECV_UNIT) && !defined(V_CTXAPI_UNIT)
 void h_push_evt(void) {
     build();
     g_evt = malloc(sizeof *g_evt); __CPROVER_assume(g_evt != NULL);
@@ -69,4 +71,23 @@ void h_recv_events(void) {
     V_COVER("module-stopped-midway", vin_nfds == 3 && g_mod->state != M_MOD_RUNNING);
     V_CANARY();
 }
+#endif
+
+#ifdef V_CTXAPI_UNIT
+static void build_api(void) {
+    build();
+    V_ASSUME(vin_tls_set_ret <= 0 && vin_tls_set_ret > -200 && vin_ctxnew_ret <= 0 && vin_ctxnew_ret > -200);
+    g_tls = vin_tls_kind ? g_ctx : NULL; g_tls_set_ret = vin_tls_set_ret; g_ctxnew_ret = vin_ctxnew_ret;
+    g_ctx->state = vin_ctx_state ? M_CTX_LOOPING : M_CTX_IDLE;
+}
+void h_m_ctx(void) { build_api(); m_ctx_t *c = m_ctx();
+    V_COVER("ctx-visible", c != NULL); V_COVER("ctx-denied", c == NULL && g_tls != NULL); V_COVER("ctx-none", g_tls == NULL); V_CANARY(); }
+void h_ctx_deregister(void) { build_api();
+    g_mctx = (g_tls != NULL && !(g_ctx->curr_mod != NULL && (g_mod->flags & M_MOD_DENY_CTX))) ? g_tls : NULL;     /* what m_ctx() answers (its contract, unit ctx.m_ctx) */
+    g_dereg_allowed = g_mctx != NULL && g_ctx->state == M_CTX_IDLE;
+    int r = m_ctx_deregister();
+    V_COVER("dereg-ok", r == 0); V_COVER("dereg-looping", r == -EINVAL); V_COVER("dereg-none", r == -EPIPE && g_tls == NULL); V_CANARY(); }
+void h_ctx_register(void) { build_api(); static const char nm[2] = "c", empty[1] = "";
+    int r = m_ctx_register(vin_name_kind == 0 ? NULL : vin_name_kind == 1 ? empty : nm, (m_ctx_flags)vin_cflags, NULL);
+    V_COVER("reg-eexist", r == -EEXIST); V_COVER("reg-new", vin_tls_kind == 0 && vin_name_kind == 2); V_COVER("reg-badname", r == -EINVAL); V_CANARY(); }
 #endif
